@@ -1,0 +1,27 @@
+//go:build verif
+
+package core
+
+import (
+	"sync/atomic"
+	"time"
+)
+
+// VerifSetPersistInterval overrides the persist timer interval used by Run.
+// It must be called before any Blockchain's Run is started.
+func VerifSetPersistInterval(d time.Duration) { persistInterval = d }
+
+// VerifPersist runs one iteration of the Run loop's timer branch: it flushes
+// the in-memory layer to the underlying store and, when
+// RemoveUntraceableBlocks is on, gives GC a chance to run exactly as Run does.
+func (bc *Blockchain) VerifPersist() error {
+	var oldPersisted uint32
+	if bc.config.RemoveUntraceableBlocks {
+		oldPersisted = atomic.LoadUint32(&bc.persistedHeight)
+	}
+	_, err := bc.persist()
+	if bc.config.RemoveUntraceableBlocks {
+		bc.tryRunGC(oldPersisted)
+	}
+	return err
+}
